@@ -42,8 +42,62 @@ fn main() {
         2 => std::process::exit(fault::repro_ree(&args)),
         _ => {}
     }
+    if let Some(p) = &args.replay {
+        std::process::exit(replay(p, &args));
+    }
     vcommon::par::quiet_panics();
     std::process::exit(run(&args));
+}
+
+/// `--replay FILE`: re-execute a recorded witness against the current build
+/// (exit 1 = the violation reproduces, 0 = it does not, 2 = not replayable).
+fn replay(p: &Path, args: &Args) -> i32 {
+    let Ok(text) = std::fs::read_to_string(p) else { return 2 };
+    let Ok(v) = vcommon::serde_json_parse(&text) else { return 2 };
+    println!("replay: recorded signature = {}", v.get("signature").and_then(|x| x.as_str()).unwrap_or("?"));
+    let w = v.get("witness").cloned().unwrap_or(v.clone());
+    let root = scratch_root("c21-replay", args.opt_str("tmp"));
+    let verdict: Option<Option<(String, String)>> = if let Some(case) = w.get("case").and_then(RtCase::from_json) {
+        println!("round trip case: {}", case.to_json());
+        match run_roundtrip(&case, &root, 0) {
+            RtOutcome::Violation(sig, w) => Some(Some((sig, w.get("what").and_then(|x| x.as_str()).unwrap_or("").to_string()))),
+            RtOutcome::Ok { .. } => Some(None),
+            RtOutcome::Skip(why) => {
+                println!("skipped: {why}");
+                None
+            }
+        }
+    } else if let Some(r) = w.get("replay") {
+        match r.get("kind").and_then(|x| x.as_str()) {
+            Some("accounting") => {
+                let rep = Report::new("C21", "fault_enumeration", args);
+                let (viol, trace) = acct::history(&rep, r.get("seed").and_then(|x| x.as_u64()).unwrap_or(0), r.get("index").and_then(|x| x.as_u64()).unwrap_or(0), &root, 0);
+                for l in trace {
+                    println!("  {l}");
+                }
+                Some(viol)
+            }
+            Some("fault") => fault::replay_point(r, &root),
+            _ => None,
+        }
+    } else {
+        None
+    };
+    let _ = std::fs::remove_dir_all(&root);
+    match verdict {
+        None => {
+            println!("INCONCLUSIVE property=C21 reason=this witness (thread run or unknown layout) cannot be replayed deterministically");
+            2
+        }
+        Some(Some((sig, what))) => {
+            println!("REPRODUCED signature={sig}: {what}");
+            1
+        }
+        Some(None) => {
+            println!("NOT REPRODUCED on the current build");
+            0
+        }
+    }
 }
 
 // ---------------------------------------------------------------------------------------
@@ -96,6 +150,20 @@ pub fn files_in_spill_dirs(dm: &DiskManager) -> Vec<PathBuf> {
     out
 }
 
+
+/// At most 5 witnesses per signature are handed to the report (it keeps no more anyway); every
+/// occurrence is counted, so the evidence shows the true number.
+pub fn report_violation(rep: &vcommon::Report, sig: &str, detail: vcommon::Json) {
+    static SEEN: std::sync::Mutex<std::collections::BTreeMap<String, u32>> = std::sync::Mutex::new(std::collections::BTreeMap::new());
+    rep.count(&format!("violation_occurrences/{sig}"), 1);
+    let mut g = SEEN.lock().unwrap_or_else(|e| e.into_inner());
+    let n = g.entry(sig.to_string()).or_insert(0);
+    *n += 1;
+    if *n <= 5 {
+        rep.violation(sig, detail);
+    }
+}
+
 pub const CODECS: [SpillCompression; 3] = [SpillCompression::Uncompressed, SpillCompression::Lz4Frame, SpillCompression::Zstd];
 
 thread_local! {
@@ -140,10 +208,30 @@ impl RtCase {
             "codec": self.codec.to_string(), "write": if self.incremental { "create_in_progress_file+append_batch+finish" } else { "spill_record_batch_and_finish" },
             "read": match self.read_cap { None => "read_spill_as_stream_unbuffered".to_string(), Some(c) => format!("read_spill_as_stream(batch_read_buffer_capacity={c})") },
             "batch_schema_non_nullable": self.batch_schema_non_nullable, "data_seed": self.data_seed,
+            "incremental": self.incremental, "read_cap": self.read_cap,
         })
     }
     fn fp(&self) -> u64 {
         vcommon::fp_str(&self.to_json().to_string())
+    }
+    /// inverse of `to_json` (for `--replay`)
+    fn from_json(v: &Json) -> Option<RtCase> {
+        let all = types::all_kinds();
+        let kinds: Vec<K> = v.get("columns")?.as_array()?.iter().filter_map(|n| all.iter().find(|k| Some(k.name().as_str()) == n.as_str()).cloned()).collect();
+        let nulls: Vec<Nulls> = v.get("nulls")?.as_array()?.iter().map(|n| match n.as_str() { Some("None") => Nulls::None, Some("All") => Nulls::All, _ => Nulls::Some }).collect();
+        let rows: Vec<usize> = v.get("rows_per_batch")?.as_array()?.iter().filter_map(|x| x.as_u64()).map(|x| x as usize).collect();
+        let slice = v.get("slice(offset,tail)").and_then(|x| x.as_array()).map(|a| (a[0].as_u64().unwrap_or(0) as usize, a[1].as_u64().unwrap_or(0) as usize));
+        let codec = *CODECS.iter().find(|c| Some(c.to_string().as_str()) == v.get("codec").and_then(|x| x.as_str()))?;
+        if kinds.len() != nulls.len() || kinds.is_empty() {
+            return None;
+        }
+        Some(RtCase {
+            kinds, nulls, rows, slice, codec,
+            incremental: v.get("incremental")?.as_bool()?,
+            read_cap: v.get("read_cap").and_then(|x| x.as_u64()).map(|x| x as usize),
+            batch_schema_non_nullable: v.get("batch_schema_non_nullable")?.as_bool()?,
+            data_seed: v.get("data_seed")?.as_u64()?,
+        })
     }
     fn build(&self) -> (SchemaRef, Vec<RecordBatch>) {
         let fields: Vec<Field> = self.kinds.iter().enumerate().map(|(i, k)| Field::new(format!("c{i}"), k.data_type(), true)).collect();
@@ -299,7 +387,7 @@ fn random_case(rng: &mut Rng, kinds: &[K]) -> RtCase {
 
 fn roundtrip_stage(rep: &Report, args: &Args, root: &Path, seed: u64, selftest: u64, reduced: bool) {
     let mut cases = systematic_cases(reduced);
-    let n_rand = if reduced { args.opt_u64("rt_random", 20) } else { args.bound("rt_random", 2_500, 150_000) };
+    let n_rand = if reduced { args.opt_u64("rt_random", 20) } else { args.bound("rt_random", 12_000, 400_000) };
     let kinds = types::all_kinds();
     let mut rng = Rng::derive(seed, &[21, 1]);
     for _ in 0..n_rand {
@@ -322,6 +410,12 @@ fn roundtrip_stage(rep: &Report, args: &Args, root: &Path, seed: u64, selftest: 
                 }
                 rep.seen("a_read_paths", &match case.read_cap { None => "unbuffered".to_string(), Some(c) => format!("buffered(cap={c})") });
                 if case.slice.is_some() { rep.count("a_sliced_cases", 1) }
+                if case.slice.is_some() && case.kinds.iter().any(|k| k.name().contains(">10KiB")) {
+                    // a small window of a large view array: the file is much smaller than the buffers the slice references
+                    let (_, bs) = case.build();
+                    let mem: usize = bs.iter().map(|b| b.get_array_memory_size()).sum();
+                    if mem as u64 > 10 * 1024 && bytes * 3 < mem as u64 { rep.count("a_view_gc_effect_observed", 1) }
+                }
                 if case.rows.contains(&0) { rep.count("a_cases_with_zero_row_batch", 1) }
                 if case.nulls.contains(&Nulls::All) { rep.count("a_cases_with_all_null_column", 1) }
                 if first_sample.swap(false, Ordering::SeqCst) {
@@ -331,9 +425,9 @@ fn roundtrip_stage(rep: &Report, args: &Args, root: &Path, seed: u64, selftest: 
             Ok(RtOutcome::Skip(why)) => rep.skip(&why),
             Ok(RtOutcome::Violation(sig, w)) => {
                 rep.count(&format!("a_violations/{sig}"), 1);
-                rep.violation(&sig, w)
+                report_violation(rep, &sig, w)
             }
-            Err(p) => rep.violation("panic", json!({"stage": "round-trip", "case": case.to_json(), "panic": p})),
+            Err(p) => report_violation(rep, "panic", json!({"stage": "round-trip", "case": case.to_json(), "panic": p})),
         }
     });
 }
@@ -363,24 +457,24 @@ fn run(args: &Args) -> i32 {
         if !reduced {
             let want = types::all_kinds().len() * 3;
             let have = rep.seen_count("a_types_x_codec");
-            let skipped_types = 0usize;
             rep.extra("a_types_x_codec_expected", json!(want));
-            rep.obligation("types-x-codecs", have + skipped_types * 3 >= want * 9 / 10, &format!("{have}/{want} type x codec combinations round-tripped"));
+            rep.obligation("view-gc-observed", rep.get_count("a_view_gc_effect_observed") > 0, "sliced view arrays above the 10 KiB GC threshold must have been compacted (file much smaller than referenced buffers)");
+            rep.obligation("types-x-codecs", have >= want * 9 / 10, &format!("{have}/{want} type x codec combinations round-tripped"));
         }
     }
     // (b)
     if !reduced && selftest != 1 {
         let s = rng.next_u64();
-        let n = args.bound("b_histories", 3_000, 200_000);
+        let n = args.bound("b_histories", 20_000, 600_000);
         vcommon::par::run(args.workers, 0..n, |i| {
             if let Err(p) = vcommon::par::guard(|| acct::history(&rep, s, i, &root, selftest)) {
-                rep.violation("panic", json!({"stage": "accounting", "seed": s, "index": i, "panic": p}));
+                report_violation(&rep, "panic", json!({"stage": "accounting", "seed": s, "index": i, "panic": p}));
             }
         });
-        let nt = args.bound("b_thread_runs", 60, 3_000);
+        let nt = args.bound("b_thread_runs", 300, 10_000);
         for i in 0..nt {
             if let Err(p) = vcommon::par::guard(|| acct::threaded(&rep, s, i, &root)) {
-                rep.violation("panic", json!({"stage": "accounting-threads", "seed": s, "index": i, "panic": p}));
+                report_violation(&rep, "panic", json!({"stage": "accounting-threads", "seed": s, "index": i, "panic": p}));
             }
         }
         rep.obligation("quota-rejections-observed", rep.get_count("b_appends_rejected_by_quota") > 0, "accounting histories must hit the quota");
